@@ -1,6 +1,7 @@
 import Pcore.Proofs.LatSoundMain
 import Pcore.Proofs.LatSfh
 import Pcore.Proofs.LatSoundTyp
+import Pcore.Proofs.LatSoundTypCall
 set_option linter.unusedSimpArgs false
 /-!
 # C01 — Assignability is sound: what is assignable never admits a foreign instance
@@ -221,5 +222,26 @@ example (cfg : Cfg) :
   · simp [asg, asgRecv, asgAllR, sameNullary, structAll, structMember, distinctCount, isStringFamily, floatAll, Rng.sub, Rng.pos,
       Rng.all, I64.max, I64.min]
   · simp [inst, instAny, asg, asgRecv, sameNullary, structAll, structMember, distinctCount, Rng.sub, Rng.all, I64.max, I64.min]
+
+/-! ### `Type[T]` with Callable inside `T` (from `C03_trans_callable_partial`) -/
+/-- Soundness of the receiver `Type[x]` for every `x` of `Ty.TSK cfg sfh` — the stage-3 fragment of transitivity plus every Callable that is the
+    default Callable or has a parameter list, nested anywhere in `x`, in the right-hand type and in the type values: the Callable types of
+    which `C01_type_callable_witness` (parameters absent, a return type present) is NOT one -/
+theorem C01_sound_type_receiver_callable (cfg : Cfg) (sfh : Bool) (hl : LowerLen cfg) (x b : Ty) (v : Val)
+    (fx : x.TSK cfg sfh) (fb : b.TSK cfg sfh) (wx : Ty.WF cfg x) (wb : Ty.WF cfg b)
+    (tv : ∀ u, v = .typ u → u.TSK cfg sfh ∧ Ty.WF cfg u)
+    (h : asg cfg sfh (.typ x) b = true) (hi : inst cfg sfh b v = true) : inst cfg sfh (.typ x) v = true :=
+  typ_recv_soundK cfg sfh hl x fx wx b.w b (Nat.le_refl _) fb wb v tv h hi
+
+/-- non-vacuity: Type[Callable[[String], Scalar]] ⊒ Type[Callable[[Scalar], String]], and the type value Callable[[Any], String['a']] is an
+    instance of the second -/
+example (cfg : Cfg) :
+    (Ty.callable (some (.tuple [.str] none)) (some .scalar) none).TSK cfg true ∧
+    asg cfg true (.typ (.callable (some (.tuple [.str] none)) (some .scalar) none))
+      (.typ (.callable (some (.tuple [.scalar] none)) (some .str) none)) = true ∧
+    inst cfg true (.typ (.callable (some (.tuple [.scalar] none)) (some .str) none))
+      (.typ (.callable (some (.tuple [.any] none)) (some (.strVal "a")) none)) = true := by
+  refine ⟨by simp [Ty.TSK], ?_, ?_⟩ <;>
+    simp [inst, asg, asgRecv, tupZip, sameNullary, tupleSize, Rng.exact, Rng.sub, isStringFamily]
 
 end Pcore.Lat
